@@ -37,6 +37,14 @@ pub fn discrepancies(cx: &Ctx) -> Vec<Disc> {
     let a = cx.a;
     let mut out = vec![];
     let is_once = |i: Inst| a.insts.get(i).map(|x| x.kind == SysKindTag::Once).unwrap_or(false);
+    // runs that read nothing although they were started for an event (reader defects, C03): counted for the delivery
+    // that started them. Empty on code whose readers work.
+    let blind: Vec<(Inst, Key)> = a
+        .runs
+        .iter()
+        .filter(|r| r.obs.seen().is_empty())
+        .filter_map(|r| sched_keys(a, &cx.dels, r).first().copied().filter(|k| *k != Key::Empty).map(|k| (r.inst, k)))
+        .collect();
     // per-trigger checks
     for (di, d) in cx.dels.iter().enumerate() {
         let op = a.cmds[d.cmd].op;
@@ -45,7 +53,10 @@ pub fn discrepancies(cx: &Ctx) -> Vec<Disc> {
         }
         match d.key {
             Key::Pay(p) => {
-                let obs = observed_payload(a, p);
+                let mut obs = observed_payload(a, p);
+                for (inst, _) in blind.iter().filter(|(_, k)| *k == d.key) {
+                    *obs.entry(*inst).or_insert(0) += 1;
+                }
                 for e in d.exp.iter() {
                     let o = obs.get(&e.inst).copied().unwrap_or(0);
                     let hi = if e.spent { 0 } else if is_once(e.inst) { e.total.min(1) } else { e.total };
@@ -136,7 +147,7 @@ pub fn discrepancies(cx: &Ctx) -> Vec<Disc> {
     }
     let mut obs: BTreeMap<(usize, Inst, Key), (u32, usize)> = BTreeMap::new();
     for r in a.runs.iter() {
-        for k in keys_of_obs(&r.obs) {
+        for k in sched_keys(a, &cx.dels, r) {
             if matches!(k, Key::Pay(_) | Key::Rem(..) | Key::Desp(_)) {
                 continue;
             }
